@@ -160,9 +160,23 @@ def run(tier, seed, rng):
         arg = '' if pin is None else f"length={pin}"
         psrc += f"class Outer{i}(Packet):\n    tag = Int(1, default=170)\n    chunk = Ref(Chunk({arg}))\n"
         psrc += f"class Deep{i}(Packet):\n    o = Ref(Outer{i})\n    t = Int(1)\n"
+    # a run-time selected reference whose declared default is a packet instance: the default is a copy of that instance
+    psrc += ("class Plain(Packet):\n    n = Int(1, default=7)\n    m = Int(2, default=515)\n"
+             "class SelD(Packet):\n    t = Int(1)\n    a = Ref(t.chooses({3: Plain(), 4: Int(2)}), default=Plain(n=9))\n    z = Int(1, default=1)\n"
+             "class SelL(Packet):\n    t = Int(1)\n    a = Ref(lambda pkt, **k: Plain() if pkt.t == 3 else Int(2), default=Plain(m=2))\n")
+    scases = [dict(cls='SelD', op='default', value={"py": "[SelD().a.n, SelD().a.m, SelD().z, SelD().a is not SelD().a]"}),
+              dict(cls='SelD', op='pack', value={"py": "SelD()"}),
+              dict(cls='SelL', op='default', value={"py": "[SelL().a.n, SelL().a.m, SelL().a is not SelL().a]"}),
+              dict(cls='SelL', op='pack', value={"py": "SelL()"})]
+    swant = [[9, 515, 1, 1], bytes([0, 9, 2, 3, 1]).hex(), [7, 2, 1], bytes([0, 7, 0, 2]).hex()]
     pcases = [dict(cls=f"{k}{i}", op='default', value={"py": f"{k}{i}()" + ('.o' if k == 'Deep' else '') + ".chunk.length"}) for i in range(len(pins)) for k in ('Outer', 'Deep')] + \
              [dict(cls=f"{k}{i}", op='pack', value={"py": f"{k}{i}()"}) for i in range(len(pins)) for k in ('Outer', 'Deep')]
     pres = run_impl(os.path.join(VERIF, 'harness', 'impl_pkt.py'), dict(header=decl.HEADER_PY, blocks=[dict(name='protos', src=psrc)], modname='c19p', cases=pcases))
+    sres = run_impl(os.path.join(VERIF, 'harness', 'impl_pkt.py'), dict(header=decl.HEADER_PY, blocks=[dict(name='protos', src=psrc)], modname='c19s', cases=scases))
+    for c, o, w in zip(scases, sres['outcomes'], swant):
+        if o.get('ok') != w:
+            failures.append(dict(kind='oracle', sig='defaults-selected-ref', what='the default of a run-time selected reference is not a copy of the declared default packet',
+                                 classes=psrc, cls=c['cls'], case=c['value'], observed=o, required=w))
     half = len(pcases) // 2
     for j, (c, o) in enumerate(zip(pcases, pres['outcomes'])):
         i = (j % half) // 2
